@@ -26,6 +26,12 @@ class Immutable(ABC):
     def __deepcopy__(self, _):
         return self
 
+    def __getstate__(self):
+        # hash(self) cached by cache_method is only valid in the process (PYTHONHASHSEED) that computed it
+        state = dict(self.__dict__)
+        state.pop('_hash', None)
+        return state
+
 
 K = TypeVar('K')
 V = TypeVar('V')
